@@ -20,6 +20,7 @@ import (
 	"sort"
 	"strconv"
 	"strings"
+	"time"
 
 	"github.com/glycerine/zygomys/v9/zygo"
 	"verif/harness/lib"
@@ -437,6 +438,12 @@ func main() {
 	env.StandardSetup()
 	h := &harness{out: out, env: env, p: env.VerifParser(), rng: lib.NewRng(a.Seed), emitted: map[string]bool{}, wholeMem: map[string][2]string{}}
 	thorough := a.Tier == "thorough"
+	t0 := time.Now()
+	phases := map[string]float64{}
+	phase := func(name string) {
+		phases[name] = time.Since(t0).Seconds()
+		t0 = time.Now()
+	}
 
 	if a.Replay != "" {
 		replay(h, a.Replay)
@@ -466,19 +473,23 @@ func main() {
 		nAtom++
 	}
 
+	phase("1-tok-atom")
 	// 2. hand-written edge texts: all 1- and 2-cuts, every case a line
 	for _, t := range edgeTexts {
 		out.Case("tok "+enc(t), tokObs(t), true, "tok:edge")
 		h.allCuts(t, len(t) <= 40, -1, "text:edge")
 	}
 
+	phase("2-edge")
 	// 3. short exhaustive texts over a reduced alphabet: every 1-cut in-harness, sampled lines
 	shortLen := 4
+	shortAlpha := shortAlphabetQuick
 	if thorough {
 		shortLen = 5
+		shortAlpha = shortAlphabet
 	}
 	k := 0
-	enumerate(shortAlphabet, shortLen, func(s string) {
+	enumerate(shortAlpha, shortLen, func(s string) {
 		k++
 		n := len([]rune(s))
 		for i := 0; i <= n; i++ {
@@ -486,6 +497,7 @@ func main() {
 		}
 	})
 
+	phase("3-short")
 	// 4. generated texts
 	ngen, nsoup := 250, 250
 	if thorough {
@@ -515,6 +527,7 @@ func main() {
 		}
 	}
 
+	phase("4-generated")
 	// 5. corpus: whole text for the model, every 1-cut in the harness (sampled in quick), sampled 2-cuts and more
 	names, texts := corpus()
 	out.Extra["corpus_files"] = len(names)
@@ -539,6 +552,7 @@ func main() {
 		}
 	}
 
+	phase("5-corpus")
 	// 6. histories
 	targets := append([]string{}, edgeTexts...)
 	targets = append(targets, gens...)
@@ -570,8 +584,11 @@ func main() {
 		h.hist(t, hs, i%6 == 0, "hist:random")
 	}
 	// every edge text after every bad text (abandoned and complete)
-	for _, t := range edgeTexts {
-		for _, b := range badTexts {
+	for i, t := range edgeTexts {
+		for j, b := range badTexts {
+			if !thorough && (i+j)%4 != int(a.Seed%4) {
+				continue
+			}
 			h.hist(t, []hitem{{text: b, abandon: true}}, false, "hist:edge")
 			h.hist(t, []hitem{{text: b}}, false, "hist:edge")
 		}
@@ -582,6 +599,8 @@ func main() {
 		}
 	}
 
+	phase("6-history")
+	out.Extra["phase_seconds"] = phases
 	out.Extra["impl_chunk_comparisons"] = h.nChunk
 	out.Extra["impl_chunk_failures"] = h.failC
 	out.Extra["impl_chunk_failures_unexplained"] = h.failCU
